@@ -134,7 +134,9 @@ def run(tier, seed, workers=None):
         nontrivial_stat='c20_jobs',
         rule='BFS over queue flow (build status bypassed so that depth is '
              'spent on queue states: evaluate -> Queued, CI green on queue '
-             'tips, queue evaluation -> Merged) x in every state: '
+             'tips, queue evaluation -> Merged; also states reached after an '
+             'earlier pull request was merged through the queue) x in every '
+             'state: '
              'create_branch for names older / between / newer / existing / '
              'archived / stabilization with and without its development '
              'branch / hotfix, with branch_from absent, a branch, commits '
